@@ -48,6 +48,16 @@ Params2 == << Params4[1], Params4[3] >>
 Params3 == SubSeq(Params4, 1, 3)
 Stmts5 == Stmts4 \o << [q |-> S5, swapped |-> FALSE] >>
 Params5 == Params4 \o << << PSeq(<<I(1)>>), PSeq(<<I(0)>>), PSeq(<<>>) >> >>
+\* S6  SELECT %s AND %s AS r, x FROM #t WHERE x > %s          parameters of the literal kinds NULL / TRUE / FALSE: the
+\*     constant conjunction is observable as an output (a NULL operand BEFORE a FALSE one gives NULL, not FALSE)
+S6 == Select(<<Tg(And2(Ph(1, ""), Ph(2, "")), "r"), Tg(Col("x"), "")>>, Tab("t"), Bin("gt", Col("x"), Ph(3, "")), <<>>, FALSE, -1)
+\* S7  SELECT x, x > %(lo)s AND %(p)s AS r FROM #t              a row-dependent operand (NULL in the row whose x is NULL)
+\*     before a constant one
+S7 == Select(<<Tg(Col("x"), ""), Tg(And2(Bin("gt", Col("x"), Ph(1, "lo")), Ph(2, "p")), "r")>>, Tab("t"), None, <<>>, FALSE, -1)
+Stmts7 == Stmts5 \o << [q |-> S6, swapped |-> FALSE], [q |-> S7, swapped |-> FALSE] >>
+Params7 == Params5 \o << << PSeq(<<Null, B(FALSE), I(0)>>), PSeq(<<B(TRUE), Null, I(1)>>), PSeq(<<B(FALSE), Null>>) >>,
+                         << PMap(<< <<"lo", I(1)>>, <<"p", B(FALSE)>> >>), PMap(<< <<"p", B(TRUE)>>, <<"lo", I(0)>> >>),
+                            PMap(<< <<"p", Null>>, <<"lo", I(0)>>, <<"q", I(1)>> >>) >> >>
 \* the smallest history on which the mechanism as shipped fails: one statement with two positional placeholders
 Stmts1 == << [q |-> S1, swapped |-> FALSE] >>
 Params1 == SubSeq(Params4, 1, 1)
@@ -71,8 +81,24 @@ Int2(u) == {Bin(op, a, b) : op \in {"add", "sub"}, a \in Int1(u), b \in Int1(u)}
 Bool2(u) == {Bin(op, a, b) : op \in {"gt", "eq", "ne"}, a \in Int1(u), b \in Int1(u)}
             \cup {And2(a, b) : a \in Bool1(u), b \in Bool1(u)}
 FoldSpace(u) == Int1(u) \cup Bool1(u) \cup Int2(u) \cup Bool2(u)
-FoldRows == { <<I(1), I(4), S(1)>>, <<Null, I(0), S(2)>>, <<I(-3), Null, Null>>, <<I(2), I(2), S(0)>> }
-FoldLaw == cur = cur /\ FoldLawOn(FoldSpace(0), FoldRows)
+FoldRows == { <<I(1), I(4), S(1), B(TRUE)>>, <<Null, I(0), S(2), B(FALSE)>>, <<I(-3), Null, Null, Null>>, <<I(2), I(2), S(0), B(TRUE)>> }
+(* boolean connectives and NULL tests over NULL / TRUE / FALSE literals, a bool column, comparisons that are NULL in
+   some rows (column 1 is NULL in the second row) and constant comparisons: every pair of operand values in both
+   orders, two levels *)
+BoolLeaves == {Const(Null), Const(B(TRUE)), Const(B(FALSE)), Acc(4, "bool"), Bin("gt", Acc(1, "int"), Const(I(0))),
+               Bin("gt", Const(I(2)), Const(I(0))), Bin("eq", Const(I(0)), Const(I(2)))}
+Conn1(u) == {And2(a, b) : a \in BoolLeaves, b \in BoolLeaves} \cup {Or2(a, b) : a \in BoolLeaves, b \in BoolLeaves}
+            \cup {NotX(a) : a \in BoolLeaves} \cup {IsNullX(a) : a \in BoolLeaves}
+BoolLeaves2 == {Const(Null), Const(B(TRUE)), Const(B(FALSE)), Acc(4, "bool")}
+Conn2(u) == {And2(a, b) : a \in Conn1(u), b \in BoolLeaves2} \cup {And2(b, a) : a \in Conn1(u), b \in BoolLeaves2}
+            \cup {Or2(a, b) : a \in Conn1(u), b \in BoolLeaves2} \cup {Or2(b, a) : a \in Conn1(u), b \in BoolLeaves2}
+            \cup {NotX(a) : a \in Conn1(u)} \cup {IsNullX(a) : a \in Conn1(u)}
+ConnSpace(u) == Conn1(u) \cup Conn2(u)
+FoldLaw == cur = cur /\ FoldLawOn(FoldSpace(0), FoldRows) /\ FoldLawIn("shipped", ConnSpace(0), FoldRows)
+(* folding the connectives as well is a legal optimisation as long as it evaluates them *)
+FoldLawFull == cur = cur /\ FoldLawIn("full", ConnSpace(0), FoldRows)
+(* non-vacuity: the short-cut `a constant FALSE decides an AND wherever it stands` must be rejected (NULL AND FALSE) *)
+FoldLawAbsorb == cur = cur /\ FoldLawIn("absorb", Conn1(0), FoldRows)
 (* constant expressions for the spec->code replay of folding *)
 ConstLeavesI == {Const(I(0)), Const(I(2)), Const(I(7)), Const(I(3))}
 ConstLeavesS == {Const(S(1)), Const(S(2))}
@@ -81,7 +107,18 @@ CBool1(u) == {Bin(op, a, b) : op \in {"gt", "eq", "le", "ne"}, a \in ConstLeaves
              \cup {Bin(op, a, b) : op \in {"eq", "lt", "ge"}, a \in ConstLeavesS, b \in ConstLeavesS}
 CInt2(u) == {Bin(op, a, b) : op \in {"add", "sub"}, a \in CInt1(u), b \in CInt1(u)}
 CBool2(u) == {Bin(op, a, b) : op \in {"gt", "eq", "lt"}, a \in CInt1(u), b \in CInt1(u)}
+(* constant connectives: NULL / TRUE / FALSE literals and constant comparisons, two levels *)
+CBoolLits == {Const(Null), Const(B(TRUE)), Const(B(FALSE))}
+CBoolLeaves == CBoolLits \cup {Bin("gt", Const(I(2)), Const(I(0))), Bin("eq", Const(I(0)), Const(I(2)))}
+AndOr(as, bs) == {And2(a, b) : a \in as, b \in bs} \cup {Or2(a, b) : a \in as, b \in bs}
+Unary(as) == {NotX(a) : a \in as} \cup {IsNullX(a) : a \in as}
+CConn1(u) == AndOr(CBoolLeaves, CBoolLeaves) \cup Unary(CBoolLeaves)
+CConn2Quick(u) == LET inner == AndOr(CBoolLits, CBoolLits)
+                  IN AndOr(inner, CBoolLits) \cup AndOr(CBoolLits, inner) \cup Unary(inner)
+CConn2All(u) == AndOr(CConn1(u), CBoolLeaves) \cup AndOr(CBoolLeaves, CConn1(u)) \cup Unary(CConn1(u))
 ConstSpaceQuick(u) == {e \in CInt1(u) \cup CBool1(u) : e.k # "c"}
                       \cup {Bin(op, a, b) : op \in {"sub"}, a \in CInt1(u), b \in ConstLeavesI}
+                      \cup CConn1(u) \cup CConn2Quick(u)
 ConstSpaceAll(u) == {e \in CInt1(u) \cup CBool1(u) \cup CInt2(u) \cup CBool2(u) : e.k # "c"}
+                    \cup CConn1(u) \cup CConn2All(u)
 =============================================================================
